@@ -778,7 +778,17 @@ class Evaluator:
                 raise AbsRaise("IndexError", str(ex))
         return TOP
 
+    @staticmethod
+    def fold_digest(v: Any) -> Any:
+        """a digest over constant bytes, used as text (joined, concatenated, hashed again): the hexadecimal string itself"""
+        if isinstance(v, Digest) and isinstance(v.pre, Const) and isinstance(v.pre.v, (bytes, bytearray)):
+            import hashlib
+            return Const(hashlib.sha256(bytes(v.pre.v)).hexdigest())
+        return v
+
     def binop(self, op: ast.AST, a: Any, b: Any) -> Any:
+        if isinstance(op, ast.Add) and (isinstance(a, Digest) or isinstance(b, Digest)):
+            a, b = self.fold_digest(a), self.fold_digest(b)
         if isinstance(a, Const) and isinstance(b, Const):
             try:
                 if isinstance(op, ast.Add):
@@ -1071,6 +1081,7 @@ class Evaluator:
             if attr == "join" and isinstance(base.v, str) and len(args) == 1:
                 a = args[0]
                 if isinstance(a, list):
+                    a = [self.fold_digest(x) for x in a]
                     if not a:
                         return Const("")
                     if all(isinstance(x, Const) and isinstance(x.v, str) for x in a):
@@ -1132,6 +1143,12 @@ class Evaluator:
             if isinstance(a, (list, tuple, dict)):
                 return Const(len(a))
             return TOP
+        if name in ("format", "hex", "oct", "bin", "abs", "repr", "int", "str") and args and all(isinstance(a, Const) for a in args) and not kwargs \
+                and all(isinstance(a.v, (int, float, str, bytes, bool, type(None))) for a in args):
+            try:
+                return Const({"format": format, "hex": hex, "oct": oct, "bin": bin, "abs": abs, "repr": repr, "int": int, "str": str}[name](*[a.v for a in args]))
+            except Exception as ex:
+                raise AbsRaise(type(ex).__name__, str(ex))
         if name == "dir" and len(args) == 1 and isinstance(args[0], EnumClass):
             return Const(sorted(list(args[0].members.keys()) + args[0].others))
         if name in ("zip",) and all(isinstance(a, (list, tuple)) or (isinstance(a, Const) and isinstance(a.v, (list, tuple))) for a in args):
